@@ -23,6 +23,16 @@ CLAIMS = {
  'C11': ('Trace monitor: notification iff something outstanding, names an entry of minimal expiry of the hook snapshot with max(0, expiry-now), one pending entry per outstanding request; with C06 (everything past its deadline fails in that very call) this gives the sufficiency argument. Exact model agreement.', 'liveness relative to the controller firing its timer'),
  'C12': ('Trace monitor: refusal iff live = limit, refusal is a no-op (events, snapshot), count never exceeds the limit, finals free exactly one slot (through C05), indications free. Exact model agreement.', ''),
  'C13': ('Trace monitor on every first transmission read back by the harness (independent TLV walk, HMAC, CRC): class/method, one attribute per type, application attributes first in first-insertion order, integrity/FINGERPRINT last in order and verifying; retransmissions byte-identical. Exact model agreement of the full attribute layout.', 'id freshness is checked by the harness, not proved'),
+ 'C04': ('Theorems on the byte-level decoder model with the Gallina HMAC-SHA1/SHA256: acceptance of any buffer under key k <-> its first integrity attribute equals HMAC(k, RFC input text); the input text is the RFC 8489 14.5/14.6 prefix with adjusted length whatever follows; the RFC MAC is accepted whatever is appended; no key -> no acceptance; acceptance under another key or text is an explicit HMAC collision. Tied to the code by the wire suite (impl verdict = Gallina verdict on every buffer) and by enumerating every single-bit fault and 16 byte substitutions per protected byte on the implementation.',
+         'never = no HMAC collision (not excluded by any theorem); key derivation (OpaqueString / MD5 / SHA-256 of user:realm:pass) is exercised through the agent suite and the attrval suite, not proved'),
+ 'C10': ('Theorems: acceptance of any buffer <-> its first FINGERPRINT xor 0x5354554e = CRC-32 of the RFC text (Gallina CRC-32/ISO-HDLC with check value); the encoder value validates; CRC linearity => any error pattern confined to one byte changes the CRC. Tied to the code by the wire suite (verdict equality, all single-bit faults and 16 substitutions of EVERY byte of messages with a FINGERPRINT) and the agent suite (client enforcement monitor).',
+         'faults that re-interpret the layout are covered by accept_iff_crc + enumeration, not by a never-theorem'),
+ 'C14': ('Theorems: the encoder with the caller buffer explicit succeeds exactly when the message fits the buffer and the 16-bit length (every value too), returns the exact size, leaves the rest of the buffer untouched, otherwise returns an error (never a wrapped length, never a panic); with MI/SHA256/FINGERPRINT tails success, size and buffer length are unchanged. Tied to the code by encoding into every buffer length 0..needed+8 with three pre-fills, and attribute lists around and beyond 65,535 bytes, in debug and release builds, comparing the whole buffer.',
+         ''),
+ 'C15': ('Trace monitor: the RTO in force at every send_request (read from the hook) is compared with an RFC 6298 reference in Gallina (alpha 1/8, beta 1/4, K 4, granularity, first sample SRTT=R RTTVAR=R/2, RTTVAR before SRTT, Karn: only transactions completed without retransmission, reset when more than 600 s pass between consecutive requests) within the tolerance the property states (1e-5 relative + 1 us); dedicated long send/response sequences with gaps around the 600 s boundary.',
+         'partial: the implementation computes in f32; closeness is measured within the stated tolerance, not proved; the reference uses fixed point with 2^-16 ns resolution; zero-length response times are outside the property and switch the monitor off for the rest of the history'),
+ 'C18': ('Theorems on the byte-level decoder model for every buffer and whatever the typed decoders do: validation success implies the same result without validation; with the ordering rule disabled every wire attribute is returned and the default result is the sub-list selected by the admission rule, both succeed together without validation; no context = default context; unknown-attribute data cannot change which attributes are returned. Tied to the code by the wire suite (17 decoder configurations per buffer, pairwise monitor) and the filter suite.',
+         'unknown-data payload equality is checked on the implementation by the harness (value level)'),
  'C16': ('Theorems: any two chunkings of a stream give the same packets and first error; a concatenation of well-formed packets yields exactly those packets; every decode() call outcome (packet, consumed, missing, error kind and consumed) equals the unchunked reading; no call panics; bytes are conserved; missing count exact. Tied to the code by the reasm suite.', ''),
  'C17': ('Trace monitor: an error return from on_buffer_recv produces no events and leaves the hook snapshot (outstanding ids, pending timeouts, credential state) unchanged except for at most one marker on unreliable transport; exact model agreement of the continuation.', ''),
 }
